@@ -341,6 +341,66 @@ CLAIMED['C19'] = dict(
          'rests on the any-N hand proof for the reference protocol plus protocol_is_reference. '
          'Known finding: ttl-index-race (_ttl_indexes iterated and mutated outside any lock).')
 
+CLAIMED['C02'] = dict(
+    technique='Lean 4 theorems about the model of the update interpreter (mongomock/collection.py '
+              '_update_document_fields*, _apply_update), operator by operator, plus a frame '
+              'theorem; tied to the code by chained update histories and an independent reference '
+              'implementation of the operator definitions',
+    text='Lean 4 theorems about MongoModel/Update.lean (runUpdater, updateSingleField, withSubdoc, '
+         'push/addToSet/pull/pullAll/pop/rename, replaceWhole, applyUpdate), each for every '
+         'document, path and argument: $set on any writable dotted path succeeds (set_total), the '
+         'path then reads back the value (set_get), arrays are padded with nulls up to the index; '
+         'an operator on one path leaves every field outside that path\'s first component alone '
+         '(single_field_frame) and a whole update leaves every top-level field it does not '
+         'address exactly as it was (untouched_fields); $unset removes the field and nothing else; '
+         '$inc adds; $min/$max keep the smaller/larger; $pop drops the last/first element; $rename '
+         'moves the value; $push appends, keeps the relative order of old elements for every '
+         '$position, places $each exactly at xs[:p] ++ es ++ xs[p:], and $slice is the Python '
+         'slice the definition names; $addToSet adds exactly the values not already present (by '
+         'the matcher\'s equality) and never removes; $pullAll / $pull (scalar operand) remove '
+         'exactly the equal elements and keep the order of the rest; a replacement stores the new '
+         'document with the stored _id kept; an update of a document is a document; an empty '
+         'operator document is rejected exactly on emulated servers before 5.0. Tie: chained '
+         'update histories (each update works on the result of the previous ones; $each / '
+         '$position / $sort / $slice, dotted paths into and beyond arrays, 3% malformed) on '
+         'server versions 4.4 and 5.0.5 run on /repo and on the compiled model (outcome and full '
+         'documents compared); on python every matched document is also compared with an '
+         'independent reference implementation of the operator definitions (harness/refupdate.py) '
+         'wherever it commits to an answer.',
+    note='Operator-by-operator theorems, not one equation applyUpdate = Spec for all updates: '
+         'combinations are covered by untouched_fields plus the per-operator theorems on the '
+         'addressed fields, and by the reference oracle at run time. Positional $ paths, $bit, '
+         '$mul are outside the model (reported unmodelled / NotImplementedError on both sides). '
+         'replace_spec assumes pyEq id id (false only on duplicate-key sub-documents, which no '
+         'Python dict holds; counterexample kept in Props/C02.lean). Known findings: '
+         'pullall-creates-path, minmax-array-noop, addtoset-each-dups, pull-through-array, boolnum.')
+
+CLAIMED['C14'] = dict(
+    technique='Lean 4 theorems about the model of update_one / replace_one / delete_one and '
+              '_find_and_modify: exactly the first selected document (natural order, or the '
+              'requested sort order) is touched and its projected image returned; tied to the code '
+              'by history correspondence and a before/after oracle on python',
+    text='Lean 4 theorems about applyUpdateColl / deleteColl with multi=false and findAndModify '
+         '(MongoModel/Store.lean, FindModify.lean) for every state satisfying the C05 invariant, '
+         'every filter, update, projection and sort: update_one / replace_one leave every document '
+         'but the first selected one (natural order) unchanged and add nothing; with no match they '
+         'change nothing; delete_one removes exactly the first selected document; find_one with a '
+         'sort returns the projection of the first selected document in that order; '
+         'find_one_and_delete removes exactly the first match in sort order and returns its '
+         'projected image whatever the projection; find_one_and_update / _replace change at most '
+         'that document, add and remove nothing, return its projected before-image (BEFORE) or '
+         'the projection of what is now stored under its _id (AFTER); with no match and no upsert '
+         'they return nothing and change nothing. Three statements as first written are refuted '
+         'in Lean (kept as _full_fails) on model states no history reaches (non-normalised or '
+         'array-valued store keys) or on calls that raise before the expiry pass; the _partial '
+         'theorems carry exactly the excluding hypotheses. Tie: histories dominated by '
+         'single-document operations with multi-match filters, 1-2 key sorts, projections '
+         '(inclusion, exclusion, {_id: 0}, empty result), both return modes, upserts, run on '
+         '/repo and on the compiled model; on python the matches and their order are taken '
+         'before the call and afterwards exactly the first may differ and the returned document '
+         'must be its projected image.',
+    note='TTL-free collections in the find_one_and_* theorems (hn); positional $ paths unmodelled.')
+
 PENDING = {
     'C02': 'model (MongoModel/Update.lean) and correspondence exist; theorems not yet proved',
     'C03': 'in progress: pipeline model depends on the expression model (C04)',
